@@ -206,25 +206,46 @@ def r14_5(ctx):
         ret = ctx.T[b['locals'][0]['ty']]
         if ret.get('adt') in (sc, ro) and b['arg_count'] == 1 and ctx.T[b['locals'][1]['ty']]['k'] == 'adt':
             q = ctx.explore(k, opaque='none')
-            ok = False
-            for t in q.terminals(lambda ev: ev['k'] == 'ret'):
+            bt = ctx.T[b['locals'][1]['ty']]
+
+            def from_builder(cv):
+                """cv is a projection chain param1.fI(.fJ) that ends in a checker-typed field of the builder"""
+                chain = []
+                while cv is not None and VAL[cv][0] == 'sym' and VAL[cv][1] == 'fld':
+                    chain.append(int(VAL[cv][3][1:]))
+                    cv = VAL[cv][2]
+                if cv is None or not (VAL[cv][0] == 'sym' and VAL[cv][1] == 'param') or not chain:
+                    return False
+                ty = bt
+                for i in reversed(chain):
+                    if not ty.get('variants'):
+                        return False
+                    ty = ctx.T[ty['variants'][0]['fields'][i]['ty']]
+                return 'Fn(' in ty['s']
+
+            rets = q.terminals(lambda ev: ev['k'] == 'ret')
+            ok = bool(rets)
+            nslots = 0
+            for t in rets:
                 v = q.g.term[t]['val']
                 if VAL[v][0] != 'agg':
+                    ok = False
                     continue
                 fields = VAL[v][3:]
-                bt = ctx.T[b['locals'][1]['ty']]
-                bfields = bt['variants'][0]['fields']
-                bchk = [i for i, x in enumerate(bfields) if 'Fn(' in ctx.T[x['ty']]['s']]
-                chk_idx = f['checker'] if ret.get('adt') == sc else rf['checker']
-                cv = fields[chk_idx]
-                ok = bool(bchk) and VAL[cv][0] == 'sym' and VAL[cv][1] == 'fld' and VAL[cv][3] == 'f%d' % bchk[0] and VAL[VAL[cv][2]][1] == 'param'
-                if ok and ret.get('adt') == sc:
-                    rs = fields[f['read_side']]
-                    rsv = VAL[rs]
-                    inner = rsv[3 + rf['checker']] if rsv[0] == 'agg' else None
-                    ok = inner is not None and VAL[inner][0] == 'sym' and VAL[inner][1] == 'fld' and 'Fn(' in ctx.T[ctx.T[bfields[int(VAL[VAL[inner][2]][3][1:])]['ty']]['variants'][0]['fields'][int(VAL[inner][3][1:])]['ty']]['s'] if VAL[VAL[inner][2]][1] == 'fld' else False
-            out.append(inst('R14.5', b['path'], ok, 'build() moves the builder\'s checker field(s) into the built object\'s checker role' if ok else
-                            'build() does not carry the configured checker into the built cache'))
+                slots = []
+                if ret.get('adt') == sc:
+                    if f['checker'] is not None:
+                        slots.append(fields[f['checker']])
+                    rsv = VAL[fields[f['read_side']]]
+                    slots.append(rsv[3 + rf['checker']] if rsv[0] == 'agg' and len(rsv) > 3 + rf['checker'] else None)
+                else:
+                    slots.append(fields[rf['checker']])
+                nslots = max(nslots, len(slots))
+                # on *every* exit, every checker slot of the built cache holds the builder's checker
+                if not all(from_builder(cv) for cv in slots):
+                    ok = False
+            out.append(inst('R14.5', b['path'], ok, 'on every exit of build() the builder\'s checker field(s) end up in the built object\'s %d checker slot(s)' % nslots if ok else
+                            'build() has an exit on which the configured checker is not carried into the built cache (the cache would silently run without it)'))
         # setters taking Option<Arc<dyn Fn>>
         if b['arg_count'] == 2 and 'Fn(' in ctx.T[b['locals'][2]['ty']]['s'] and ctx.T[b['locals'][2]['ty']].get('adt') == 'std::option::Option':
             q = ctx.explore(k, opaque='none')
